@@ -107,7 +107,10 @@ func ZZ_L2() {
 	if crashOK && !mon.crashStarted {
 		crashBudget = 1
 	}
-	zzrt.Go(func() { e.SpawnProc(p) })
+	zzrt.Go(func() {
+		zzrt.Mark() // with ZZMARKONLY=1: senders may run before the actor is registered
+		e.SpawnProc(p)
+	})
 	for t := 0; t < T; t++ {
 		t := t
 		accepted[t] = make([]bool, M)
@@ -120,6 +123,7 @@ func ZZ_L2() {
 		}
 		zzrt.Go(func() {
 			for j := 0; j < M; j++ {
+				zzrt.Mark() // with ZZMARKONLY=1: senders can be preempted between two sends
 				e.SendWithSender(p.pid, zzUser{Seq: t*100 + j, Payload: int64(j), Crash: crash[j]}, nil)
 				// accepted = it did not become a dead letter (the PID was registered)
 				accepted[t][j] = !sink.deadLetterFor(t*100 + j)
@@ -175,6 +179,23 @@ func ZZ_L2() {
 	}
 	zzrt.Quiesce()
 	zzrt.RaceWatch(false)
+	{
+		// vacuity witness for the message-boundary mode: the messages of one sender were handled with another
+		// sender's message in between
+		lastOf := -1
+		seen := map[int]bool{}
+		for _, r := range mon.recs {
+			if r.kind != zzKUser {
+				continue
+			}
+			snd := r.seq / 100
+			if snd != lastOf && seen[snd] {
+				zzrt.Reach("senders-interleaved")
+			}
+			seen[snd] = true
+			lastOf = snd
+		}
+	}
 
 	zzrt.Assert(!mon.overlap, "C02:Receive-overlaps")
 	if prop == 2 {
